@@ -50,8 +50,8 @@ func (enc *Encoder) WriteError(e error) {
 		return
 	}
 	var s string
-	if rv := reflect.ValueOf(e); rv.Kind() == reflect.Ptr && rv.IsNil() {
-		// a typed nil pointer is an error for Go (e != nil): it is written as one when its
+	if rv := reflect.ValueOf(e); isNilable(rv.Kind()) && rv.IsNil() {
+		// a typed nil pointer (or nil func, map ...) is an error for Go (e != nil): it is written as one when its
 		// Error method can speak for a nil receiver, and as null when that method
 		// dereferences the receiver
 		var ok bool
@@ -70,6 +70,14 @@ func (enc *Encoder) WriteError(e error) {
 	}
 	enc.buf = append(enc.buf, TagError)
 	enc.buf = appendString(enc.buf, s, utf16Length(s))
+}
+
+func isNilable(kind reflect.Kind) bool {
+	switch kind {
+	case reflect.Ptr, reflect.Func, reflect.Map, reflect.Slice, reflect.Chan:
+		return true
+	}
+	return false
 }
 
 func errorOfNilReceiver(e error) (s string, ok bool) {
